@@ -6,11 +6,12 @@ sys.path.insert(0, HERE)
 from props import PROPS
 VERIF = os.path.dirname(HERE)
 ids = [json.loads(l)["id"] for l in open(os.path.join(VERIF, "properties.jsonl"))]
+REG = set(open(os.path.join(HERE, "registered.txt")).read().split())
 checks = []
 na = []
 for pid in ids:
     cfg = PROPS.get(pid)
-    if not cfg or cfg.get("disabled"):
+    if not cfg or cfg.get("disabled") or pid not in REG:
         na.append({"property_id": pid, "reason": (cfg or {}).get("na_reason", "not claimed yet: its model, theorems and correspondence are not built at this commit (technique applies; see DESIGN.md section 9)")})
         continue
     checks.append({
